@@ -154,6 +154,7 @@ def power(p, n):
         return Poly.const(1)
     if n == 1:
         return p
+    p = normalize(p)
     if len(p.d) == 1:
         (k, v), = p.d.items()
         if n.denominator == 1:
@@ -414,7 +415,8 @@ class Extract:
     `subst` maps unparsed call/attribute texts to values (e.g. {'cos(ν)': c}).
     """
 
-    def __init__(self, env=None, subst=None, strict=False, abs_is_identity=True):
+    def __init__(self, env=None, subst=None, strict=False, abs_is_identity=True, drop_mod_2pi=True):
+        self.drop_mod_2pi = drop_mod_2pi
         self.env = dict(env or {})
         self.subst = dict(subst or {})
         self.strict = strict
@@ -465,6 +467,11 @@ class Extract:
                 return elementwise(lambda a, b: a * b, l, r)
             if isinstance(n.op, ast.Div):
                 return elementwise(lambda a, b: a * power(b, -1), l, r)
+            if isinstance(n.op, ast.Mod):
+                # angles are compared modulo 2*pi: `X % (2*pi)` is X
+                if isinstance(r, Poly) and equal(r, Poly.const(2) * Poly.atom(PI)) and self.drop_mod_2pi:
+                    return l
+                raise Unsupported("modulo")
             if isinstance(n.op, ast.Pow):
                 if isinstance(r, list) or not r.is_const():
                     raise Unsupported("non-constant exponent")
